@@ -1,5 +1,5 @@
 """C25 — badly prepared atoms behave as absent, on both backends."""
-from ..rules import dark, perm
+from ..rules import drivers, dark, perm
 
 META = {
     "title": "Badly prepared atoms behave as absent, on both backends",
@@ -32,3 +32,4 @@ def check(ctx):
     ctx.floor("DARK-mps", 8)
     ctx.floor("DARK-sv", 3)
     ctx.floor("PHYSDIM", 4)
+    drivers.init_sequence(ctx)
